@@ -68,7 +68,30 @@ def world(init, history, issuer, kind):
         'schema': {'tk': {'n': dict(st.VAR)}}, 'update': {'tk': {'n': 1}}}
     spec['topology']['ticker'] = {'tk': ('ticker_store',)}
     spec['script'] = [('update', 1)] * (len(history) + 1)
+    if issuer == 'step':
+        # a census step that DEPENDS on the operator step records which
+        # children it is shown in the very phase of the operation
+        spec['steps']['census'] = {
+            'cls': 'S', 'pid': 'census', 'log_states': False,
+            'schema': {'X': {'*': {'v': dict(st.VAR)}},
+                       'Y': {'*': {'v': dict(st.VAR)}},
+                       'out': {'xk': {'_default': [], '_updater': 'set',
+                                      '_emit': True},
+                               'yk': {'_default': [], '_updater': 'set',
+                                      '_emit': True}}},
+            'update': {'$call': 'c09census'}}
+        spec['flow']['census'] = [('op',)]
+        spec['topology']['census'] = {'X': ('X',), 'Y': ('Y',),
+                                      'out': ('census_out',)}
     return spec
+
+
+def _census(tpl, env):
+    return {'out': {'xk': sorted(env.states['X']),
+                    'yk': sorted(env.states['Y'])}}
+
+
+probes.TEMPLATE_HOOKS['c09census'] = _census
 
 
 def snapshot(engine):
@@ -99,7 +122,7 @@ def run_history(job, acc):
         snaps.append(snapshot(ex.engine))
     ex = worlds.execute(spec, after_call=after_call)
     models = st.replay_model(init, kind, [
-        o for o in history if o[0] != 'addx'])
+        o for o in history if o[0] not in ('addx', 'adddup')])
     acc.case(key=(init_i, history, issuer, kind),
              outcome=f'{issuer}:{history[-1][0] if history else "-"}')
     acc.state(models[-1].canon())
@@ -130,6 +153,19 @@ def run_history(job, acc):
         want = expected_tree(model)
         got[st.LEAF_CONTAINER] = values.get(st.LEAF_CONTAINER, {})
         want[st.LEAF_CONTAINER] = dict(model.leaves)
+        census = values.get('census_out')
+        if i < len(history) and history[i][0] == 'delpath':
+            census = None     # K6: judged by the tree comparison below
+        if census is not None and (
+                list(census.get('xk', [])) != sorted(model.t['X'])
+                or list(census.get('yk', [])) != sorted(model.t['Y'])):
+            op = history[i] if i < len(history) else None
+            V('C09.tree', 'dependent-step-shown-stale-children',
+              f'after tick {i + 1} (operation {op}): the census step that '
+              f'depends on the operator step was shown X={census.get("xk")}'
+              f' Y={census.get("yk")}, the hierarchy holds '
+              f'X={sorted(model.t["X"])} Y={sorted(model.t["Y"])}')
+            return
         if fw.jdump(got) != fw.jdump(want):
             got['_typed'] = want['_typed'] = None
         if fw.jdump(got) != fw.jdump(want):
@@ -222,6 +258,10 @@ def jobs(ctx):
                     for k in m.t[c]:
                         out.append((init_i, h + (('addx', c, k),), issuer,
                                     kind, True))
+                    for k in st.KEYS:
+                        if k not in m.t[c]:
+                            out.append((init_i, h + (('adddup', c, k),),
+                                        issuer, kind, True))
             # tuple-path form of _delete (documented form) as last operation
             for h in [()] + hs2[:40]:
                 m = st.replay_model(init, kind, h)[-1]
@@ -242,6 +282,11 @@ _orig_op_update = st.op_update
 def _op_update(op, kind='vars', ts=1):
     if op[0] == 'addx':
         return _orig_op_update(('add',) + tuple(op[1:]), kind, ts)
+    if op[0] == 'adddup':
+        # ONE _add list that names the same new key twice
+        _, c, k = op
+        return {c: {'_add': [{'key': k, 'state': {'v': 5}},
+                             {'key': k, 'state': {'v': 6}}]}}
     return _orig_op_update(op, kind, ts)
 
 
